@@ -87,8 +87,14 @@ func isKeeperIface(name string) bool {
 func effectKind(ev *Event) string {
 	switch ev.Kind {
 	case EvMapUpdate:
+		if scratchMap(ev.Place) {
+			return ""
+		}
 		return "mapset"
 	case EvMapDelete:
+		if scratchMap(ev.Place) {
+			return ""
+		}
 		return "mapdel"
 	case EvGlobalStore:
 		return "globalstore"
@@ -311,4 +317,14 @@ func (p *Path) zeroOn(upto int, key string) bool {
 		}
 	}
 	return false
+}
+
+// scratchMap: a Go map made by the function that uses it and used by probes, writes, deletes
+// and len only (never stored, passed, ranged over or returned) - not state.
+func scratchMap(m *Term) bool {
+	if m == nil || m.Op != "make" || m.Name != "map" {
+		return false
+	}
+	mk, ok := m.Site.(*ssa.MakeMap)
+	return ok && localOnlyMap(mk)
 }
